@@ -2,6 +2,6 @@ CONSTANTS MaxSteps = 2  Rich = TRUE  Variants = {2, 3, 4}  Focus = "edit"  SimDe
 INIT Init
 NEXT NextCover
 VIEW view
-INVARIANTS C20_Design AppIndex_Design C28_Relays C24_NoOverdue SupplyOK
+INVARIANTS C20_Design AppIndex_Design C28_Relays C28_Chains C24_NoOverdue SupplyOK
 PROPERTIES C28_Design C23_Design C24_Design Unauth_Design
 CHECK_DEADLOCK FALSE
